@@ -31,6 +31,9 @@ RECURSIVE ChainEnds(_, _, _)
 ChainEnds(e, id, fuel) == IF id = 0 THEN TRUE ELSE IF fuel = 0 THEN FALSE ELSE ChainEnds(e, e.services[Svc(e, id)].parent, fuel - 1)
 Range2(q) == { q[i] : i \in 1..Len(q) }
 
+DeclOf(e, path, name) == LET f == CHOOSE f \in Range2(e.declared) : f.thriftPath = path IN CHOOSE d \in Range2(f.det) : d.name = name
+StripFn(fd) == [thriftName |-> fd.thriftName, oneway |-> fd.oneway, args |-> fd.args, excs |-> fd.excs, hasRet |-> fd.hasRet]
+
 ChecksReq(e) ==
   LET sids == Ids(e.services)  mids == Ids(e.modules)
       modOf(id) == e.modules[CHOOSE i \in 1..Len(e.modules) : e.modules[i].id = id]
@@ -42,6 +45,17 @@ ChecksReq(e) ==
        <<"module-ids-resolve", \A i \in 1..Len(e.services) : e.services[i].module \in mids>>,
        <<"parent-ids-resolve", \A i \in 1..Len(e.services) : e.services[i].parent = 0 \/ e.services[i].parent \in sids>>,
        <<"parent-chains-acyclic", \A i \in 1..Len(e.services) : ChainEnds(e, e.services[i].id, Len(e.services) + 1)>>,
+       \* every described service is a declared one, with the declared parent and exactly the declared functions
+       \* (names, oneway, argument and exception names in order, a return type iff not void)
+       <<"services-carry-their-declared-parents-and-functions",
+            \A i \in 1..Len(e.services) :
+              LET s == e.services[i]  path == modOf(s.module).thriftPath IN
+              /\ \E f \in Range2(e.declared) : f.thriftPath = path /\ \E d \in Range2(f.det) : d.name = s.thriftName
+              /\ LET d == DeclOf(e, path, s.thriftName) IN
+                 /\ IF d.parent = << "", "" >> THEN s.parent = 0
+                    ELSE /\ s.parent \in sids
+                         /\ LET ps == e.services[Svc(e, s.parent)] IN << modOf(ps.module).thriftPath, ps.thriftName >> = d.parent
+                 /\ [ k \in 1..Len(s.fdet) |-> StripFn(s.fdet[k]) ] = d.fdet>>,
        <<"root-services-resolve", Range2(e.rootServices) \subseteq sids /\ Range2(e.rootModules) \subseteq mids>>,
        <<"root-services-are-the-services-of-the-generated-files", gotRoots = wantRoots>>,
        <<"module-import-path-and-directory-match-generated-packages",
